@@ -153,6 +153,8 @@ type FV struct {
 	maxPaths int
 	sentinel map[string]int
 	extra    []string
+	used     map[string]bool
+	paramFirst []int
 }
 
 type execError struct{ msg string }
